@@ -39,7 +39,9 @@ for x in sorted(os.listdir(d)):
             r = sh(f"cd /verif && ./check {p} quick")
             v = [l for l in r.stdout.splitlines() if l.startswith("VIOLATION") or l.startswith("violation") or l.startswith("obligation") or l.startswith("Miri:") or l.startswith("pipeline:")]
             print(f"{os.path.basename(d)}/{x} {p} exit={r.returncode} {('FALSE ALARM? ' + ' | '.join(v)[:600]) if r.returncode == 1 else ''}{r.stderr[-600:] if r.returncode == 2 else ''} ({time.time()-t:.0f}s)", flush=True)
-            sid = f"benign-{os.path.basename(d).replace('benign','')}-{x}"
+            base = os.path.basename(d.rstrip("/")).replace("out_", "")
+            base = base.replace("benign2", "r2").replace("benign", "")
+            sid = f"benign-{base}-{x}"
             out = f"/verif/seeded/{sid}"; os.makedirs(out, exist_ok=True)
             shutil.copy(patch, out + "/patch.diff")
             if os.path.exists(os.path.join(d, x, "notes.md")): shutil.copy(os.path.join(d, x, "notes.md"), out + "/notes.md")
